@@ -13,6 +13,7 @@ AST nodes that a rule only passes on to a sub-visit are opaque keys (`Key[StmtBl
 """
 from speclib import *
 from spec.c15 import *
+from spec.c15x import *
 
 
 class SC__visit_expr(Contract):
@@ -26,6 +27,10 @@ class SC__visit_expr(Contract):
     note = ('ASSUMED: SyntaxCheckInstance._visit_expr(e, ctx) either raises FPySyntaxError or returns None, '
             'changing only self.free_var_args (that it checks every Var of e against ctx.env is D3, '
             'proved only for _visit_var/_mark_use)')
+
+    def post(self, e, ctx, result):
+        return {'none': result is None,
+                'uses_bound': uses_bound(self, e, ctx.env)}      # D3, spec/c15x.py
 
 
 class SC__visit_statement(Contract):
